@@ -1,0 +1,33 @@
+"""Verification hooks (no-ops unless MALTHE_CHAMELEON_VERIF=1).
+
+``point(label, **info)`` marks a step of lazy compilation, template loading
+or module caching.  A harness may install a callback with ``set_callback``;
+the callback may record the event, block (to force a schedule) or terminate
+the process (to inject a crash).  With the environment variable unset,
+``point`` does nothing.
+"""
+from __future__ import annotations
+
+import os
+from typing import Any
+from typing import Callable
+
+
+ENABLED = os.environ.get("MALTHE_CHAMELEON_VERIF") == "1"
+
+_callback: Callable[[str, dict[str, Any]], None] | None = None
+
+
+def set_callback(callback: Callable[[str, dict[str, Any]], None] | None) -> None:
+    global _callback
+    _callback = callback
+
+
+if ENABLED:
+    def point(label: str, **info: Any) -> None:
+        callback = _callback
+        if callback is not None:
+            callback(label, info)
+else:
+    def point(label: str, **info: Any) -> None:
+        pass
